@@ -26,7 +26,10 @@ echo "{\"ev\":\"run_start\",\"tool\":\"$tool\",\"file\":\"$base\"}" >> "$D/log"
 while [ -e "$D/gate.run.$base" ]; do /bin/sleep 0.003; done
 code=0
 case "$avail" in
-  ok) echo "// formatted by $name" >> "$file" ;;
+  ok) echo "// formatted by $name" >> "$file"
+      # a successful run may well talk: a summary on stdout, a notice on stderr (exit status 0 is what counts)
+      echo "$base 12ms"
+      echo "$name notice: a new version is available" >&2 ;;
   runfail) code=1 ;;
   missing) code=127 ;;
 esac
